@@ -536,6 +536,21 @@ def cross_check_extraction(ctx):
     cases += [[152, [4, [2, 1], [1, 2], [[10, 0], [14, 0], [7, 1], [1], []]]],
               [153, [1, 1, 0, [[[3, 0], [1, 1]], [[], [1, 0]]]]],
               [154, [[[[0, 0], [0, 0]], [[2, 0], [1, 0]], [[4, 0], [4, 0]]], [[3, 0], [1], [-1], [], [9, 1]]]]]
+    # round-2 wires: lookup, store (lost chunk + preselection), excision API, v3 request / index, averager as written
+    cases += [[156, [[[0, 1], [1, 1], [0, 0], [1, 0], [0, 0]]]], [156, [[]]], [156, [[[0, 1], [0, 0]]]],
+              [157, [[[[0, 0], [1, 1], [0, 1]]], 0, 0, [], 3,
+                     [[[[[2, 0], [0, 0]], [[4, 0], [0, 0]], [[3, 0], [1, 0]]], [[[1, 1], [0, 0]], [[8, 0], [0, 0]], [[5, 0], [0, 0]]]]],
+                     [[1], [1, 1], [2, 1]], [[0, 1, 0]],
+                     [[[[3, 0], [1, 0], [2, 0]], [[6, 0], [7, 0], [8, 0]]]], [[1], [2], [3]], [],
+                     [[[1, 1], [2, 0]]], [[1], [2]], [], [0, 1, 1, 1], [1], [1]]],
+              [157, [[], 1, -1, [], 1, [[[[[2, 0], [0, 0]]]]], [[1], [1], [1]], [], [[[[3, 0]]]], [[1], [1], [1]], [],
+                     [[[1, 1]]], [[1], [1]], [], [], [1], [1]]],
+              [158, [[1, 1, 1, 1, 1, 1], [1, 2], 4, [2, 1], 1, [[8, 0], [3, 0], [1], []]]],
+              [158, [[1, 1, 1, 1, 1, 0], [1, 2], 4, [2, 1], 1, [[8, 0]]]],
+              [159, [[7], [9, 7], 1, 0, [[[3, 0], [1, 1]], [[], [1, 0]]]]], [159, [[7], [9], 1, 1, [[[3, 0], [1, 1]]]]],
+              [1511, [1, 1, 1, [[[[1, 0]], [[2, 0]]], [[[3, 0]], [[4, 0]]]], [[[10, 0], [20, 0]], [[30, 0], [40, 0]]],
+                      [0, 1], [1, 0], [0]]]]
+    cases += [avg_api_wire(gen_avg(rng)) for _ in range(8)]
     a = ctx.model(cases)
     b = core.run_model_in_coq(cases, 'c15')
     ctx.extra['extraction_cross_checked_cases'] = len(cases)
